@@ -54,13 +54,22 @@ def _guard(what, e10, fn, *a, **kw):
         raise AnalysisError(f"{what}: the evaluation over symbolic arrays failed ({type(e).__name__}: {e})") from e
 
 
-def rule_quadratures(rep, repo):
+SWEEP = {"cartesian": ((1, 2, 3), 2), "radial": ((3,), 2), "pure": ((3,), 2), "pure-radial": ((3,), 3)}
+
+
+def rule_quadratures(rep, repo, gen_keys=None):
     sp = _sp()
     e10, mom, utils = _setup(repo)
     here = mom.loc()
     N, C = 2, 2
     n_checked = 0
-    for type_mom, dims, order in (("cartesian", (1, 2, 3), 2), ("radial", (3,), 2), ("pure", (3,), 2), ("pure-radial", (3,), 3)):
+    keys = sorted(gen_keys) if gen_keys else sorted(SWEEP)
+    unknown = [k for k in keys if k not in SWEEP]
+    if unknown:
+        raise AnalysisError(f"the order generator accepts the moment type(s) {unknown} for which the checker has no reference basis function")
+    stored = {n_.id for n_ in ast.walk(mom.node) if isinstance(n_, ast.Name) and isinstance(n_.ctx, ast.Store)}
+    for type_mom in keys:
+        dims, order = SWEEP[type_mom]
         for D in dims:
             P = e10._obj_array([[sp.Symbol(f"p{n}{d}", real=True) for d in range(D)] for n in range(N)])
             W = e10.arr([sp.Symbol(f"w{n}") for n in range(N)])
@@ -80,8 +89,22 @@ def rule_quadratures(rep, repo):
             ext = {"convert_cart_to_sph": cart_to_sph, "solid_harmonics": solid}
             nodes = {k: v.node for k, v in utils.items() if k not in ext}
             it = e10.Interp(nodes, ext)
+            grid.resolver = e10.class_resolver(repo, "Grid", grid, it)
             what = f"Grid.moments[{type_mom}, dim {D}]"
-            ret = _guard(what, e10, it.call_def, mom.node, [grid, order, CEN, F], {"type_mom": type_mom, "return_orders": True}, {})
+            try:
+                ret = it.call_def(mom.node, [grid, order, CEN, F], {"type_mom": type_mom, "return_orders": True}, {})
+            except e10.Unbound as e:
+                if e.name in stored:
+                    # the name is assigned on other paths of Grid.moments but not on the path of this moment type
+                    rep.violation("R3.moment-type-computed", "basegrid.Grid.moments", type_mom,
+                                  f"type_mom={type_mom!r} is accepted by the order generator but Grid.moments does not compute "
+                                  f"`{e.name}` on the path taken for it (dimension {D})", here)
+                    continue
+                raise AnalysisError(f"{what} is outside the fragment the symbolic array evaluator knows: {e}") from e
+            except e10.Undecided as e:
+                raise AnalysisError(f"{what} is outside the fragment the symbolic array evaluator knows: {e}") from e
+            except (IndexError, ValueError, TypeError, KeyError, AttributeError) as e:
+                raise AnalysisError(f"{what}: the evaluation over symbolic arrays failed ({type(e).__name__}: {e})") from e
             if not isinstance(ret, (tuple, list)) or len(ret) != 2:
                 raise AnalysisError(f"{what}: return_orders=True does not return (moments, orders)")
             M, orders = ret
@@ -126,6 +149,7 @@ def rule_quadratures(rep, repo):
                     break
             if not bad:
                 rep.ok("R7.entries-are-quadratures", f"Grid.moments[{type_mom}, dim {D}]", here, f"{rows} rows x {C} centres")
+                rep.ok("R3.moment-type-computed", f"Grid.moments[{type_mom}, dim {D}]", here, "accepted by the generator and computed")
     rep.floor("R7 entries", n_checked, 60)
 
 
@@ -187,3 +211,59 @@ def rule_dipole(rep, repo):
         ok = False
     if ok:
         rep.ok("R8.dipole-assembly", "dipole_moment_of_molecule", here, "nuclear minus electronic first moments about the centre of mass")
+
+
+def _horton_reference(order, type_ord, dim):
+    """The documented Horton order, written independently of the code."""
+    if type_ord == "cartesian":
+        if dim == 1:
+            return [[order]]
+        if dim == 2:
+            return [[mx, order - mx] for mx in range(order, -1, -1)]
+        return [[mx, my, order - mx - my] for mx in range(order, -1, -1) for my in range(order - mx, -1, -1)]
+    if type_ord == "radial":
+        return [order]
+    if type_ord == "pure":
+        out = [[order, 0]]
+        for m in range(1, order + 1):
+            out += [[order, m], [order, -m]]
+        return out
+    out = []
+    for l in range(order):
+        out.append([order, l, 0])
+        for m in range(1, l + 1):
+            out += [[order, l, m], [order, l, -m]]
+    return out
+
+
+def rule_orders_bounded(rep, repo):
+    """Bounded back-up of R2 / R6: the order generator evaluated for the orders 0..4 (every type, every dimension)
+    returns exactly the documented rows in the documented order."""
+    e10, mom, utils = _setup(repo)
+    f = utils["generate_orders_horton_order"]
+    here = f.loc()
+    nodes = {k: v.node for k, v in utils.items()}
+    n = 0
+    for type_ord, dims in (("cartesian", (1, 2, 3)), ("radial", (3,)), ("pure", (3,)), ("pure-radial", (3,))):
+        for dim in dims:
+            for order in range(0, 5):
+                if type_ord == "pure-radial" and order == 0:
+                    continue
+                it = e10.Interp(nodes, {}, module_globals={k: v for k, v in e10.module_globals_of(repo.modules["utils"].tree).items()
+                                                           if not isinstance(v, ast.ClassDef)})
+                out = _guard(f"utils.generate_orders_horton_order({order}, {type_ord!r}, {dim})", e10, it.call_def, f.node,
+                             [order, type_ord, dim], {}, {})
+                got = out.tolist() if hasattr(out, "tolist") else list(out)
+                got = [[int(x) for x in r] if isinstance(r, (list, tuple)) else int(r) for r in got]
+                want = _horton_reference(order, type_ord, dim)
+                n += 1
+                if got != want:
+                    rep.violation("R6.horton-order", "utils.generate_orders_horton_order", f"{type_ord}:bounded",
+                                  f"generate_orders_horton_order({order}, {type_ord!r}, dim={dim}) returns the rows {got}; the documented "
+                                  f"Horton order is {want}", here)
+                    break
+            else:
+                continue
+            break
+    rep.floor("orders evaluated (bounded)", n, 20)
+    return n
